@@ -141,7 +141,7 @@ def build_all(specs, cores):
     return failures
 
 
-def explore(specs, monitors, k, baselines, cores, max_per_baseline=None, derive=None):
+def explore(specs, monitors, k, baselines, cores, max_per_baseline=None, derive=None, resume_legs=()):
     """Enumerate all executions with <= k deviations around each baseline for every spec.
     derive(spec, default summary) may return further specs (e.g. the same wiring with all time scales shortened so
     that end-of-chain / sampling events fall inside the horizon); they are explored in the same way.
@@ -181,6 +181,9 @@ def explore(specs, monitors, k, baselines, cores, max_per_baseline=None, derive=
             ps["commits"] = max(ps["commits"], r["commits"])
             if k >= 1:
                 devs = [{key: a} for (key, nalt, ch) in r["draws"] for a in range(nalt - 1)]
+                # one more kind of environment answer: the run is dumped and resumed at the start of leg k
+                if resume_legs:
+                    devs += [{("resume", leg): 0} for leg in resume_legs if leg <= r["legs"]]
                 if max_per_baseline is not None and len(devs) > max_per_baseline:
                     devs = devs[:max_per_baseline]
                     stats["capped"] = True
